@@ -38,7 +38,9 @@ PROP = dict(
          "longer, much longer}; writer separator / CRLF / ReuseRecord / closing rotate (quick; also lazy+trim together and two of "
          "the four skip counts per option set) or are multiplied out (thorough). Plus long inputs (24 KiB valid; malformed early / middle / unterminated quote "
          "with >= 2 read buffers of further text) for every kind, and histories of 2-3 calls with ONE codec value (6 text classes x "
-         "skip {1,2,3,6} x supported kinds). Plus 7 stress families: the WriterTo call whose parser stops while a Write is pending, 100 000 / 300 000 "
+         "skip {1,2,3,6} x supported kinds). Plus histories of 2-3 Consume calls into ONE *[][]string variable with the earlier results re-read, seekable sources "
+         "(*bytes.Reader / *strings.Reader) at a non-zero offset as two more source kinds, caller-configured *csv.Reader sources carrying stale "
+         "LazyQuotes / TrimLeadingSpace / ReuseRecord flags (also left behind by an earlier producer on the same reader). Plus 7 stress families: the WriterTo call whose parser stops while a Write is pending, 100 000 / 300 000 "
          "times each from several goroutines / GOMAXPROCS settings, one aggregated event per family. Seeded part: 3000 / 30000 random tables of up to "
          "30 x 6 fields over a CSV-hostile alphabet with random perturbation, separators incl. tab and |. Non-trivial: the "
          "reference table is non-empty or the text is malformed; distinct by hash of the case.",
